@@ -64,6 +64,8 @@ type BackendScript struct {
 	RawBody    []byte          // if UseRaw: response body bytes written verbatim after the head
 	UseRaw     bool
 	RawFlagsEnd *byte
+	RawComplete bool // RawBody is the entire response body (nothing is appended; gRPC still sets its trailers)
+	FailOnBad  bool  // behave like a real server: answer invalid_argument when the request is invalid or its body errored
 }
 
 type BackendObs struct {
@@ -93,6 +95,8 @@ type BackendObs struct {
 	Binding     *Binding
 	WriteErrs   []string
 	UsedComp    string
+	Written     []byte // response body bytes handed to the ResponseWriter
+	Rejected    bool   // FailOnBad: the request was refused
 }
 
 func (o *BackendObs) bad(format string, args ...any) { o.Bad = append(o.Bad, fmt.Sprintf(format, args...)) }
@@ -571,6 +575,7 @@ type segWriter struct {
 	cut     int // remaining bytes allowed (-1 = unlimited)
 	errs    *[]string
 	stopped bool
+	written *[]byte
 	hold    bool   // collect everything and write it in one segmented pass at the end
 	pending []byte
 }
@@ -608,6 +613,9 @@ func (s *segWriter) write(p []byte) {
 		}
 		if s.empty {
 			_, _ = s.w.Write(nil)
+		}
+		if s.written != nil {
+			*s.written = append(*s.written, p[:n]...)
 		}
 		k, err := s.w.Write(p[:n])
 		if err != nil {
@@ -682,7 +690,13 @@ func (b *Backend) respond(w http.ResponseWriter, r *http.Request) {
 	for k, v := range s.Headers {
 		h[k] = append([]string(nil), v...)
 	}
-	sw := &segWriter{w: w, seg: s.WriteSeg, flush: s.FlushEach, empty: s.EmptyWrites, cut: -1, errs: &o.WriteErrs}
+	sw := &segWriter{w: w, seg: s.WriteSeg, flush: s.FlushEach, empty: s.EmptyWrites, cut: -1, errs: &o.WriteErrs, written: &o.Written}
+	if s.FailOnBad && (len(o.Bad) > 0 || o.ReadErr != nil || b.wrongCount()) {
+		o.Rejected = true
+		cp := *s
+		cp.Err, cp.ErrAfter, cp.Msgs, cp.Bare, cp.UseRaw = &RPCError{Code: 3, Msg: "backend: invalid request"}, 0, nil, nil, false
+		s = &cp
+	}
 	if s.CutAt > 0 {
 		sw.cut = s.CutAt
 	}
@@ -728,7 +742,7 @@ func (b *Backend) respond(w http.ResponseWriter, r *http.Request) {
 		}
 		return out
 	}
-	if s.DeclareTrailers && (o.Proto == "grpc") {
+	if s.DeclareTrailers && (o.Proto == "grpc") && !(s.Err != nil && nmsgs == 0 && s.TrailersOnly) {
 		var keys []string
 		for k := range s.Trailers {
 			keys = append(keys, k)
@@ -763,7 +777,7 @@ func (b *Backend) respond(w http.ResponseWriter, r *http.Request) {
 		} else {
 			sw.write(frames())
 		}
-		if sw.stopped {
+		if sw.stopped || (s.UseRaw && s.RawComplete && o.Proto != "grpc") {
 			return
 		}
 		if o.Proto == "grpc" {
@@ -926,4 +940,16 @@ func canonHeader(h http.Header) http.Header {
 		out[textproto.CanonicalMIMEHeaderKey(k)] = append(out[textproto.CanonicalMIMEHeaderKey(k)], v...)
 	}
 	return out
+}
+
+// wrongCount: a unary or server-streaming method must receive exactly one request message.
+func (b *Backend) wrongCount() bool {
+	o := b.Obs
+	if o.MethodInfo == nil || b.Script.NoRead || b.Script.RespondFirst {
+		return false
+	}
+	if o.MethodInfo.Stream == stUnary || o.MethodInfo.Stream == stServer {
+		return len(o.RawMsgs) != 1
+	}
+	return false
 }
